@@ -68,6 +68,7 @@ func valuesOfTy(r *rng, ty string, n int) []interface{} {
 			out = append(out, math.Float64frombits(r.u64()))
 		}
 	case "f32":
+		out = append(out, math.Float32frombits(0x15ae43fd), math.Float32frombits(0x95ae43fd))
 		out = append(out, float32(0), float32(math.Copysign(0, -1)), float32(1.5), float32(0.1), float32(16777217), float32(3.4028235e38), float32(1e-45), float32(math.NaN()))
 		for i := 0; i < n; i++ {
 			out = append(out, math.Float32frombits(uint32(r.u64())))
@@ -267,6 +268,8 @@ func genC13(cw *caseWriter, seed uint64, tier string) {
 			t := jsonline.NewTemplate().With("c", formatByName[f], tySample[ty])
 			var buf bytes.Buffer
 			exp := t.GetExporter(&buf)
+			// a null first: a cell that is still nil when later lines are read must stay nil
+			vals = append([]interface{}{nil}, vals...)
 			var written []int
 			for i, v := range vals {
 				before := buf.Len()
@@ -343,11 +346,13 @@ func valueFor(r *rng, in, out colDesc) string {
 		}
 		return pick(r, []string{`0`, `1`, `-1`, `12`, `255`, `100`, `1632518460`, `"12"`, `"1"`, `7`, `127`, `null`,
 			// integers that no float64 carries exactly, and the 64-bit bounds
-			`9007199254740993`, `1632823189123456789`, `9223372036854775807`, `-9223372036854775808`, `-9007199254740993`, `18446744073709551615`, `253402300799`, `1.5`, `1e3`})
+			`7.0385307e-26`, `7.038531e-26`, `-7.0385307e-26`, `9007199254740993`, `1632823189123456789`, `9223372036854775807`, `-9223372036854775808`, `-9007199254740993`, `18446744073709551615`, `253402300799`, `1.5`, `1e3`})
 	case "boolean":
 		return pick(r, []string{`true`, `false`, `0`, `1`, `"true"`, `"false"`, `null`})
 	case "binary":
-		return pick(r, []string{`"AQ=="`, `"AQAAAA=="`, `"AQAAAAAAAAA="`, `"aGVsbG8="`, `"MTI="`, `"AAE="`, `null`})
+		return pick(r, []string{`"AQ=="`, `"AQAAAA=="`, `"AQAAAAAAAAA="`, `"aGVsbG8="`, `"MTI="`, `"AAE="`, `null`,
+			// valid but non-canonical base64, base64 of base64, the float32 whose shortest text double-rounds
+			`"QR=="`, `"WVdKalpBPT0="`, `"YWJjZA=="`, `"/UOuFQ=="`})
 	case "date":
 		return pick(r, []string{`"2021-09-24"`, `"0001-01-01"`, `"9999-12-31"`, `1632518460`, `"2021-09-24T21:21:00Z"`, `null`})
 	case "datetime":
